@@ -172,10 +172,16 @@ func (g *gctx) stmts(f *javagen.File, depth int, v *vis, n int) []javagen.Stmt {
 					already = true // Java forbids redeclaring a visible local/param; fields may be shadowed (handled by caller's list)
 				}
 			}
-			if already {
-				name = fmt.Sprintf("%s%d", name, r.Intn(100))
-				st.Name = name
+			for already { // a fresh name: the suffixed one must not be visible either (two suffixed names used to collide 1 time in 100)
+				name = fmt.Sprintf("%s%d", st.Name, r.Intn(100))
+				already = false
+				for _, x := range v.names {
+					if x == name {
+						already = true
+					}
+				}
 			}
+			st.Name = name
 			if r.Intn(3) > 0 {
 				e := g.expr(2, v, true)
 				st.E = &e
